@@ -75,7 +75,7 @@ class StaleRule(FactRule):
                 # an update of an accumulator by a derived amount does not make it a cache; an update of a
                 # cache keeps it one and refreshes it
                 src = was_cache
-            ts = frozenset(it for it in ts if not (isinstance(it, tuple) and it[0] in ('cache', 'stale') and it[1] == l.decl))
+            ts = frozenset(it for it in ts if not (isinstance(it, tuple) and it[0] in ('cache', 'stale', 'spent') and it[1] == l.decl))
             for f in src:
                 ts = ts | frozenset([('cache', l.decl, f)])
                 self.caches[l.decl] = l.op
@@ -83,7 +83,7 @@ class StaleRule(FactRule):
                     self.cache_defs.setdefault(l.op, set()).update(n.op for n in walk(rhs) if n.k == 'mem')
         return ts
 
-    def check_uses(self, ctx, e, ts, what):
+    def check_uses(self, ctx, e, ts, what, writer_call=False):
         if e is None:
             return
         for n in walk(e):
@@ -93,26 +93,44 @@ class StaleRule(FactRule):
                         self.violate(ctx, 'stale', 'local %s caches a value derived from %s, which %s() may have changed '
                                      'since; it is used here (%s) without having been recomputed' % (
                                          n.op, it[2], it[3], what), inst='%s<-%s' % (n.op, it[2]))
+                    if writer_call and isinstance(it, tuple) and it[0] == 'spent' and it[1] == n.decl:
+                        self.violate(ctx, 'stale', 'local %s was derived from %s and already handed to %s(), which '
+                                     'changed %s; it is handed over again (%s) without having been recomputed' % (
+                                         n.op, it[2], it[3], it[2], what), inst='%s<-%s' % (n.op, it[2]))
+
+    def writes_fields(self, ctx, call):
+        fs, exs = self.prog.call_targets(ctx.fn, call)
+        written = set()
+        for t in fs:
+            written |= self.writers.get(t.qname, set())
+        return written
 
     def on_call(self, ctx, call, ts):
         if ctx.fn is not self.fn:
             return ts
+        w = bool(self.writes_fields(ctx, call))
         for a in call.a[1:]:
-            self.check_uses(ctx, a, ts, 'argument of %s()' % (callee_name(call) or callee_field(call)))
+            self.check_uses(ctx, a, ts, 'argument of %s()' % (callee_name(call) or callee_field(call)), writer_call=w)
         return ts
 
     def after_call(self, ctx, call, ts, mask):
         if ctx.fn is not self.fn:
             return ts
-        fs, exs = self.prog.call_targets(ctx.fn, call)
-        written = set()
-        for t in fs:
-            written |= self.writers.get(t.qname, set())
+        written = self.writes_fields(ctx, call)
         if written:
             name = callee_name(call) or callee_field(call)
+            argvars = set(n.decl for a in call.a[1:] for n in walk(a) if n.k == 'var')
             for it in list(ts):
                 if isinstance(it, tuple) and it[0] == 'cache' and it[2] in written:
-                    ts = ts | frozenset([('stale', it[1], it[2], name)])
+                    # the amount that was handed to this very call is "spent": it may still be compared with the
+                    # call's result or used to advance cursors, but not handed to a writer again; any other cached
+                    # value is stale
+                    kind = 'spent' if it[1] in argvars else 'stale'
+                    if kind == 'stale' and ('spent', it[1], it[2], name) in ts:
+                        pass
+                    ts = ts | frozenset([(kind, it[1], it[2], name)])
+                    if kind == 'stale':
+                        ts = frozenset(x for x in ts if not (isinstance(x, tuple) and x[0] == 'spent' and x[1] == it[1]))
         return ts
 
     def on_node(self, ctx, node, ts):
